@@ -272,6 +272,30 @@ def handle (req : Json) : Except String Json := do
         pure ({ cfg := c, bs := b, env := ev } : Episode V RTab))
       pure (ofList outJson (runHistory L s0 es))
     | _ => pure Json.null
+  -- phase 6: the consumer closes the generator after the rows of j passes: {"stop":{"j":…,"full":[…the whole environment…]}}
+  let stopped : Json ← match req.getObjVal? "stop" with
+    | .ok sj => do
+      let j ← nat (← field sj "j")
+      let full ← (← arr (← field sj "full")).mapM parseDict
+      let st := evaluateStopped cfg L bs full s0 j
+      let resumed : Json := match st with
+        | .ok r => outJson (resumeStopped cfg L bs full j r)
+        | _ => Json.null
+      pure (obj [("stopped", outJson st), ("resumed", resumed), ("fullModel", outJson (evaluate cfg L bs full s0))])
+    | .error _ => pure Json.null
+  -- … and inside a history: entries may carry "stop": j and "full": the whole environment (their "env" is what was got through)
+  let histS : Json ← match req.getObjVal? "history" with
+    | .ok (.arr eps) => do
+      let es ← eps.toList.mapM (fun e => do
+        let cj ← field e "cfg"
+        let c : Config := { learn := (← parseLearn (fieldD cj "learn" Json.null)),
+                            eval := (← parseEval (fieldD cj "eval" Json.null)), record := (← strList (← field cj "record")) }
+        let b ← opt nat (fieldD e "batch" Json.null)
+        let st ← opt nat (fieldD e "stop" Json.null)
+        let ev ← (← arr (← field e (if st.isSome then "full" else "env"))).mapM parseDict
+        pure ({ cfg := c, bs := b, env := ev, stop := st } : EpisodeS V RTab))
+      pure (if es.any (fun e => e.stop.isSome) then ofList outJson (runHistoryS L s0 es) else Json.null)
+    | _ => pure Json.null
   let modelI : Json := match evaluateI cfg (scriptedI script L.hasScore) env s0 with
     | .ok r => outJson (.ok (r.1, r.2.1, r.2.2.1))
     | .rejected ks => outJson (.rejected ks)
@@ -327,7 +351,7 @@ def handle (req : Json) : Except String Json := do
     | .error _ => pure Json.null
   pure (obj [("model", outJson model), ("hyp", Json.bool hyp), ("raw", raw), ("firstBad", bad), ("recordKeys", rkeys), ("spec", ofOpt id spec), ("specB", ofOpt id specB),
              ("modelI", modelI), ("modelIB", modelIB), ("modelP", modelP),
-             ("history", hist),
+             ("history", hist), ("historyS", histS), ("stop", stopped),
              ("unbatched", outJson modelU),
              ("required", ofList Json.str (required cfg L.hasScore)),
              ("requiredS", ofList Json.str (requiredS cfg L.hasScore))])
